@@ -72,6 +72,9 @@ ASSUMPTIONS = [
     "RDF/XML: graphs with a predicate IRI that cannot be split into namespace + NCName, or a literal containing a "
     "character outside XML 1.0 `Char`, are outside 'every graph the syntax can express' and are skipped (counted in stats)",
     "lone surrogates are not Unicode scalar values and occur in no literal",
+    "JSON-LD with the base option: `base` is the document's own IRI (JSON-LD API); the output holds document-relative ids "
+    "and no @base (pinned by the suite's fromRdf/compact tests), so it is parsed with publicID=base; all other formats are "
+    "parsed without a base",
 ]
 TRUSTED = ["harness/c03.py, harness/graphgen.py generators; harness/isoutil.py isomorphism oracle",
            "harness/c03tables.py copies the writers' replace chains from rdflib's source into lean/RV/C03/Tables.lean",
